@@ -18,3 +18,9 @@ add(
     "Exploration: for generated (type, value) pairs (quick 12k, thorough 240k) gtirb's bytes must equal those of vlib/auxref (written from the format description, integer arithmetic only), gtirb must decode reference bytes with sets/mappings in rotated order, the reference must decode gtirb's bytes completely, and for the Java-supported sub-grammar (half of the shards) the repository's Java codec must decode gtirb's bytes to the same rendering, consume all of them, re-encode them identically, and gtirb must decode Java's re-encoding of reference bytes. Sampling, not proof.",
     "Trusts vlib/auxref.py, OpenJDK 17, /repo/java codec sources + a 2-method ByteString stub, java/AuxDriver.java.",
 )
+add(
+    "C11",
+    "stateful model-based testing: op programs against a Python-set reference model, full observation after every step",
+    "Exploration: Hypothesis-generated op programs (quick 6k, thorough 120k histories of up to 40 ops, swarm-selected opcodes) over 5 CFG nodes x 6 labels drive IR.cfg and a Python set in lock step; after every op length, duplicate-free iteration, membership of all 150 candidate edges, out_edges/in_edges of every node and the blocks' own incoming/outgoing views (attached, detached, other IR) are compared, including KeyError behaviour of remove/pop. Sampling of histories, not proof.",
+    "Trusts CPython set semantics as the model, Hypothesis.",
+)
